@@ -6,7 +6,9 @@ import server_cases as sc
 
 GOOD = ['http://site.test/a', 'https://site.test/b?x=1&y=2', 'http://site.test/', 'https://x']
 BAD = ['HTTP://site.test/a', ' http://site.test/a', 'ftp://site.test/a', '', '//site.test/a', 'http:/x', 'File:///data/a.html',
-       'javascript:alert(1)', 'httpx://y', 'site.test/a', 'http ://x', '\thttps://x', 'https:/\\x', 'FILE:///data/a.html']
+       'javascript:alert(1)', 'httpx://y', 'site.test/a', 'http ://x', '\thttps://x', 'https:/\\x', 'FILE:///data/a.html',
+       # values a URL library chokes on (unbalanced brackets, hosts that fail IDNA / NFKC checks, odd ports)
+       'ftp://[::1', 'ftp://[localhost]/pub', '//[', 'gopher://ex\u2100mple.org/', 'ftp://host\uff03x/', 'ftp://h:99999999/', 'x://[', 'ftp://user:pw@[', 'ws://]']
 FILES = ['file:///data/a.html', 'file:///data/b.txt']
 FILE_TABLE = {'/data/a.html': sc.HTML_A, '/data/b.txt': b'plain text body'}
 UNKNOWN = ['nope', 'HTML_TOKEN', 'length2', '_', '0', 'healthcheck2', 'links_']
@@ -166,6 +168,11 @@ def gen_cases(tier, rng):
             cases.append(mk(differ, FILES[0], GOOD[1], production=True, extra=[('pass_headers', p_)], headers=h_))
             cases.append(mk(differ, None, GOOD[1], extra=[('pass_headers', p_)], headers=h_))
             cases.append(mk('nope', GOOD[0], GOOD[1], extra=[('pass_headers', p_)], headers=h_))
+    # 6. http(s) values with a malformed authority pass the scheme gate; whatever the fetch does with them, the error is well formed
+    for bad in ('http://[::1', 'https://[localhost]/x', 'http://user:pw@[', 'http://ex\u2100mple.org/', 'http://h:99999999/', 'https://host\uff03x/'):
+        for f in (('oserror',), ('timeout',), ('valueerror',), ('curl', 3), ('curl', 6), ('resp', 500, [('Content-Type', 'text/html')], b'err')):
+            cases.append(mk('length', bad, GOOD[1], upstream={bad: f, GOOD[1]: okup[GOOD[1]]}))
+            cases.append(mk('html_token', GOOD[0], bad, upstream={bad: f, GOOD[0]: okup[GOOD[0]]}))
     return cases
 
 
